@@ -378,12 +378,18 @@ func importTables(c *Ctx) {
 		ok, all := distinctQualifiers(w)
 		return ok && len(importsOf(w).Keys) == 2, "a package named dep, then a package the source imports under the alias dep: " + all + "; want distinct qualifiers (the conflict search must not be skipped for imports that carry a source alias)"
 	})
+	scenario("one-alias-two-packages", []importSpec{{"shared", false, "a.test/x/dep"}, {"shared", false, "b.test/y/dep"}}, "", []step{{"a.test/x/dep", "dep"}, {"b.test/y/dep", "dep"}}, func(w *regWorld, r []interp.Value) (bool, string) {
+		ok, all := distinctQualifiers(w)
+		p1, _ := r[0].(*interp.Ptr)
+		p2, _ := r[1].(*interp.Ptr)
+		return ok && len(importsOf(w).Keys) == 2 && p1 != nil && p2 != nil && p1.Elem != p2.Elem, "two packages named dep that two source files import under the same alias `shared` (import names are file scoped): " + all + "; want two imports with distinct qualifiers — one entry for both would print the types of one package with the other's qualifier"
+	})
 	scenario("three-way-conflict", nil, "", []step{{"a.test/x/dep", "dep"}, {"b.test/y/dep", "dep"}, {"c.test/x/dep", "dep"}}, func(w *regWorld, r []interp.Value) (bool, string) {
 		ok, all := distinctQualifiers(w)
 		return ok && len(importsOf(w).Keys) == 3, "three packages named dep: " + all + "; want three imports with pairwise distinct qualifiers"
 	})
 	searchLiveTable(c)
-	run.Floor("G-IMPORT/table", 8)
+	run.Floor("G-IMPORT/table", 9)
 }
 
 // searchLiveTable: the qualifier search sees an import under the qualifier it has now.
